@@ -394,6 +394,19 @@ impl<Writer> MuxerBuilder<Writer> {
             }
         });
 
+        // The Opus decoder configuration (dOps) stores the channel count in one byte.
+        if let Some(audio) = &audio_track {
+            if audio.codec == AudioCodec::Opus && audio.channels > 255 {
+                return Err(MuxerError::Io(std::io::Error::new(
+                    std::io::ErrorKind::InvalidInput,
+                    format!(
+                        "Opus supports at most 255 channels, {} configured",
+                        audio.channels
+                    ),
+                )));
+            }
+        }
+
         let mut writer = Mp4Writer::new(self.writer, video_track.codec);
         if let Some(audio) = &audio_track {
             writer.enable_audio(Mp4AudioTrack {
